@@ -85,7 +85,7 @@ FILE2_NAMES = ["Zone/G%d" % i for i in range(3)]        # only in zi2
 DUP_NAME = "Dup/X"                                      # in both, differing
 SPACE_NAME = "Sp ace/Y"                                 # file Sp_ace/Y in zi1
 ARCH_NAMES = ["Arch/A%d" % i for i in range(3)]         # bundled archive only
-POSIX = ["EST5EDT", "AAA3BBB,M3.2.0/2,M11.1.0/2", "XYZ-9", "UTC+3",
+POSIX = ["EST5EDT", "EST5", "AAA3BBB,M3.2.0/2,M11.1.0/2", "XYZ-9", "UTC+3",
          "GMT-2", "CET-1CEST,M3.5.0,M10.5.0/3"]
 OTHER = ["UTC", "GMT", "Nowhere/None", "abc", "EST", "EDT", "CET", ":Zone/F0",
          ZW.ZI1 + "/Zone/F1", "/sim/nowhere", "12bad", None, ""]
@@ -333,6 +333,10 @@ def generate(cls, rng):
             if kind == "eio_at":
                 f["k"] = rng.choice([1, 2, 3, 4, 6])
             ops.append(["fault", target, f])
+        elif r < 0.97:
+            # the zone file is rewritten with the same content (new
+            # modification time, new inode): not a reason for a second object
+            ops.append(["touch", rng.choice(FILE_NAMES[:6])])
         else:
             ops.append(["gc"])
     return dict(knobs=knobs, ops=ops, faults=faults_on)
@@ -644,6 +648,15 @@ class Actor(object):
             return
         if k == "fault":
             self.arm_fault(op)
+            return
+        if k == "touch":
+            with K.mute():
+                fs = sim.world.fs
+                p = ZW.ZI1 + "/" + op[1]
+                if p in fs.files:
+                    fs.replace_file(p, fs.files[p])
+                    ctx.fault("file_touched")
+                    ctx.event(self.name, "touch", op[1])
             return
         if k == "use":
             rec = sim.held.get((self.name, op[1]))
